@@ -964,9 +964,13 @@ impl<Octs> Nsec3Salt<Octs> {
             }
         }
 
-        scanner
-            .convert_token(Converter::default())
-            .map(|res| unsafe { Self::from_octets_unchecked(res) })
+        scanner.convert_token(Converter::default()).and_then(|res| {
+            if scanned_len::<S>(&res) > Nsec3Salt::MAX_LEN {
+                Err(S::Error::custom("illegal NSEC3 salt"))
+            } else {
+                Ok(unsafe { Self::from_octets_unchecked(res) })
+            }
+        })
     }
 
     pub fn parse<'a, Src: Octets<Range<'a> = Octs> + ?Sized>(
@@ -1302,7 +1306,13 @@ impl<Octs> OwnerHash<Octs> {
     ) -> Result<Self, S::Error> {
         scanner
             .convert_token(base32::SymbolConverter::new())
-            .map(|octets| unsafe { Self::from_octets_unchecked(octets) })
+            .and_then(|octets| {
+                if scanned_len::<S>(&octets) > OwnerHash::MAX_LEN {
+                    Err(S::Error::custom("illegal NSEC3 owner name hash"))
+                } else {
+                    Ok(unsafe { Self::from_octets_unchecked(octets) })
+                }
+            })
     }
 
     /// Converts the hash into the underlying octets.
@@ -1606,6 +1616,13 @@ where
             NewtypeVisitor(PhantomData),
         )
     }
+}
+
+//------------ scanned_len ---------------------------------------------------
+
+/// Returns the length of an octets value produced by a scanner.
+fn scanned_len<S: Scanner>(octets: &S::Octets) -> usize {
+    octets.as_ref().len()
 }
 
 //============ Error Types ===================================================
